@@ -799,16 +799,26 @@ func (l *legCtx) queriesTrial(r *vh.RNG, t int) {
 	// the same generated history is executed twice from identical generators: first quietly (reference trace),
 	// then with query goroutines hammering the application while the blocks are produced
 	base := r.U64()
-	ref := l.queriesRun(vh.Derive(base, "queries-world", 0), t, false, nil)
+	ref, _ := l.queriesRun(vh.Derive(base, "queries-world", 0), t, false, nil)
 	if ref == nil {
 		return
 	}
-	l.queriesRun(vh.Derive(base, "queries-world", 0), t, true, ref)
+	_, d1 := l.queriesRun(vh.Derive(base, "queries-world", 0), t, true, ref)
+	if d1 != nil {
+		// schedule-dependent: re-examined once with an independent second noisy run (a trial is re-run once before it decides)
+		_, d2 := l.queriesRun(vh.Derive(base, "queries-world", 0), t, true, ref)
+		if d2 != nil {
+			d2["first_run"] = d1
+			l.viol("block-results-differ-from-the-quiet-twin", "queries", d2)
+		} else {
+			l.count("queries_divergences_not_reproduced_on_rerun", 1)
+		}
+	}
 }
 
 // queriesRun produces one history; noisy: with concurrent query goroutines. It returns the per-block trace
 // (app hash + marshalled tx results); with a reference trace every block is compared with it.
-func (l *legCtx) queriesRun(r *vh.RNG, t int, noisy bool, ref [][]byte) [][]byte {
+func (l *legCtx) queriesRun(r *vh.RNG, t int, noisy bool, ref [][]byte) (trace [][]byte, differs map[string]any) {
 	w := vh.NewWorld(r, vh.WorldOpts{Chain: vh.Config{Seed: r.U64(), NumVals: 2, Erc20Native: true, StakingCPC: true}, NumEOA: 5, Prog: vh.ProgOpts{MaxLen: 7, Depth: 2}})
 	defer w.C.Cleanup()
 	w.DeployGenerated(6, nil)
@@ -890,7 +900,6 @@ func (l *legCtx) queriesRun(r *vh.RNG, t int, noisy bool, ref [][]byte) [][]byte
 			}(g)
 		}
 	}
-	var trace [][]byte
 	nBlocks := r.Range(15, 30)
 	for b := 0; b < nBlocks; b++ {
 		var plans []*vh.TxPlan
@@ -920,13 +929,13 @@ func (l *legCtx) queriesRun(r *vh.RNG, t int, noisy bool, ref [][]byte) [][]byte
 			l.count("queries_blocks_produced", 1)
 			if ref != nil {
 				if b >= len(ref) || string(ref[b]) != string(line) {
-					l.viol("block-results-differ-from-the-quiet-twin", "queries", map[string]any{"trial": t, "block_index": b, "height": br.Height,
+					differs = map[string]any{"trial": t, "block_index": b, "height": br.Height,
 						"app_hash_noisy": common.Bytes2Hex(br.Res.AppHash), "app_hash_quiet": func() string {
 							if b < len(ref) && len(ref[b]) >= 32 {
 								return common.Bytes2Hex(ref[b][:32])
 							}
 							return ""
-						}()})
+						}()}
 					break
 				}
 				l.count("queries_blocks_equal_to_quiet_twin", 1)
@@ -935,7 +944,7 @@ func (l *legCtx) queriesRun(r *vh.RNG, t int, noisy bool, ref [][]byte) [][]byte
 	}
 	stop.Store(true)
 	wg.Wait()
-	return trace
+	return trace, differs
 }
 
 
